@@ -115,7 +115,9 @@ def corpus_variants(prop):
         with open(mp) as fh:
             meta = json.load(fh)
         if meta.get("property") == prop or prop in meta.get("first_alarms", {}):
-            out.append(dict(id=f"refactor:{sid}", kind="twin", patch=pp))
+            # a refactoring the checks are on record as not coping with yet (meta verdict != silent, DESIGN 9.5) is replayed
+            # and reported, but it is a documented limit, not a regression of the checker
+            out.append(dict(id=f"refactor:{sid}", kind="twin", patch=pp, known_limit=prop in meta.get("alarms", {})))
     return out
 
 
@@ -184,6 +186,8 @@ def run_battery(prop, repo, base_failures, seed=0, jobs=16):
         else:
             if status == "ok" and not new:
                 res = dict(verdict="silent", detail="no new finding")
+            elif v.get("known_limit"):
+                res = dict(verdict="known-limit", detail=f"documented limit (seeded/refactors meta): status={status} new={new[:2]} {err[:120]}")
             else:
                 res = dict(verdict="FALSE-ALARM", detail=f"status={status} new={new[:3]} {err[:160]}")
                 broken.append(v["id"])
@@ -193,8 +197,10 @@ def run_battery(prop, repo, base_failures, seed=0, jobs=16):
     n_twin = sum(1 for r in results if r["kind"] == "twin")
     n_silent = sum(1 for r in results if r["verdict"] == "silent")
     n_skip = sum(1 for r in results if r["verdict"] in ("skipped", "masked"))
+    n_lim = sum(1 for r in results if r["verdict"] == "known-limit")
     return dict(
-        summary=f"{n_caught}/{n_seed} seeded violations caught, {n_silent}/{n_twin} refactor twins silent, {n_skip} skipped/masked",
+        summary=f"{n_caught}/{n_seed} seeded violations caught, {n_silent}/{n_twin} refactor twins silent"
+                + (f" ({n_lim} documented limits)" if n_lim else "") + f", {n_skip} skipped/masked",
         results=results,
         broken=broken,
     )
